@@ -33,6 +33,8 @@ type OrderResult struct {
 	Violations []string       `json:"violations"`
 	Stats      map[string]int `json:"stats"`
 	Started    bool           `json:"started,omitempty"`
+	// blocked (function, wait kind) pairs seen in goroutine dumps during the run
+	WaitSites []waitSite `json:"wait_sites,omitempty"`
 }
 
 func genOrderCase(rng *hcommon.RNG, id string, big bool) OrderCase {
@@ -188,6 +190,28 @@ func runOrderCase(c OrderCase) (res OrderResult) {
 		}
 	}
 
+	// sample the blocked goroutines of the router while the work is going on
+	seen := map[waitSite]int{}
+	stopSampling := make(chan struct{})
+	var sampler sync.WaitGroup
+	sampler.Add(1)
+	go func() {
+		defer sampler.Done()
+		for {
+			select {
+			case <-stopSampling:
+				return
+			case <-time.After(3 * time.Millisecond):
+				sampleWaitSites(seen)
+			}
+		}
+	}()
+	defer func() {
+		for ws := range seen {
+			res.WaitSites = append(res.WaitSites, ws)
+		}
+	}()
+
 	// the concurrent phase
 	var work sync.WaitGroup
 	for _, p := range pubs {
@@ -288,6 +312,9 @@ func runOrderCase(c OrderCase) (res OrderResult) {
 			return false
 		})
 	}
+	close(stopSampling)
+	sampler.Wait()
+	sampleWaitSites(seen)
 	r.Close()
 	readers.Wait()
 
